@@ -57,6 +57,7 @@ func init() {
 		if na := gen.CheckAddVar(c.Run, c.Prog); na != nil {
 			gen.CheckReserved(c.Run, c.Prog, na, freeNameList(c, "G-RESERVED"), false)
 		}
+		gen.CheckVarNameOwners(c.Run, c.Prog)
 	})
 	register("C08", "other", func(c *Ctx) {
 		skeletonExplain(c, "C08 (reset API only on request, clears exactly what it names): the method set of every mock is {M, MCalls} for each M, plus {ResetMCalls for each M, ResetCalls} iff with-resets (every other flag combination); ResetMCalls writes nil, unconditionally and under the write lock, to exactly the slice its method appends to and reads nothing; ResetCalls does so for the slices of all methods; clearing is `= nil`, never a re-slice. The flag's way from the command line to the template data is checked as an identity flow on the generator's source (G-FLAGS).")
